@@ -505,6 +505,38 @@ func (env *Env) execBlock(list []ast.Stmt) ([]*Val, bool) {
 	return nil, false
 }
 
+// assignTo stores v into a variable or a field of an evaluated struct value.
+func (env *Env) assignTo(l ast.Expr, v *Val) (ok bool) {
+	defer func() {
+		if r := recover(); r != nil {
+			if _, isEE := r.(evalErr); !isEE {
+				panic(r)
+			}
+			ok = false
+		}
+	}()
+	switch lx := ast.Unparen(l).(type) {
+	case *ast.Ident:
+		if lx.Name == "_" {
+			return true
+		}
+		if o := objOf(env.Pkg.TypesInfo, lx); o != nil {
+			env.Vars[o] = v
+			return true
+		}
+	case *ast.SelectorExpr:
+		base := env.eval(lx.X)
+		for base.Ptr != nil {
+			base = base.Ptr
+		}
+		if base.Fields != nil {
+			base.Fields[lx.Sel.Name] = v
+			return true
+		}
+	}
+	return false
+}
+
 // constInt returns the constant integer value of e if the type checker folded it.
 func constInt(info *types.Info, e ast.Expr) (int64, bool) {
 	if e == nil {
@@ -632,6 +664,24 @@ func (f *Flat) WalkPath(env *Env) (visited []int, exit int, err error) {
 					}()
 				}
 			case *ast.AssignStmt, *ast.DeclStmt:
+				if as, isAs := s.(*ast.AssignStmt); isAs && len(as.Lhs) == len(as.Rhs) && len(as.Lhs) > 1 {
+					// a parallel assignment (the parameter binding of a spliced-in helper): each value on its
+					// own, so that one value outside the fragment (a function literal) does not lose the others
+					vals := make([]*Val, len(as.Rhs))
+					for i, rh := range as.Rhs {
+						if v, err := env.Eval(rh); err == nil {
+							vals[i] = v
+						}
+					}
+					for i, l := range as.Lhs {
+						if vals[i] == nil || !env.assignTo(l, vals[i]) {
+							if o := objOf(f.Pkg.TypesInfo, l); o != nil {
+								delete(env.Vars, o)
+							}
+						}
+					}
+					break
+				}
 				func() {
 					defer func() {
 						if r := recover(); r != nil {
